@@ -134,7 +134,7 @@ Proof.
       destruct (lookup name jcc_table); discriminate.
   - destruct (in_range (-32768) 32767 seg && in_range (-2147483648) 2147483647 off); discriminate.
   - destruct (lookup name noparam_table); discriminate.
-  - destruct v as [z|]; [destruct (in_range 0 255 z); discriminate | discriminate].
+  - destruct v as [z|]; [destruct (z =? 3); [discriminate|]; destruct (in_range 0 255 z); discriminate | discriminate].
   - apply (HE _ _ _ _ G).
 Qed.
 
